@@ -431,6 +431,32 @@ def main(tier, seed, replay=None):
                 if o_ != ref:
                     empty_diffs.append({"what": "a document with owl:imports as %s argument (do_owl_imports=True): handed over as [%s] gives %r, as [%s] gives %r" % (arg, ref_desc, ref, desc, o_),
                                         "document": main_ttl, "imported": open(imp_path).read()})
+        # ---- documents WITHOUT a stated base whose nodes are relative IRIs: they resolve against the location of the file, whichever
+        # legitimate spelling of that location the caller uses (path, file:///p, file:/p, file://localhost/p, percent escapes in either case)
+        from urllib.parse import quote
+        rdir = os.path.join(d, "caf\u00e9 dir")
+        os.makedirs(rdir, exist_ok=True)
+        rel_data, rel_shapes = os.path.join(rdir, "rdata.ttl"), os.path.join(rdir, "rshapes.ttl")
+        open(rel_data, "w", encoding="utf-8").write("<alice> a <Person> ; <name> \"A\" .\n<bob> a <Person> .\n<carol> a <Person> ; <name> \"C\" , \"CC\" .\n")
+        open(rel_shapes, "w", encoding="utf-8").write("@prefix sh: <http://www.w3.org/ns/shacl#> .\n<PersonShape> a sh:NodeShape ; sh:targetClass <Person> ; sh:property [ sh:path <name> ; sh:minCount 1 ; sh:maxCount 1 ] .\n")
+        esc = quote(rel_data)                               # upper-case hex escapes, as Path.as_uri() writes them
+        esc_lower = "".join(ch.lower() if i_ > 0 and "%" in esc[max(0, i_ - 2):i_] else ch for i_, ch in enumerate(esc))
+        spellings = [("path", rel_data), ("file:/// URI", "file://" + esc), ("file:/ URI", "file:" + esc), ("file://localhost/ URI", "file://localhost" + esc),
+                     ("file:/// URI with lower-case escapes", "file://" + esc_lower)]
+        for arg in ("data", "shapes"):
+            outs = []
+            for desc, sp in spellings:
+                other = rel_shapes if arg == "data" else rel_data
+                src = sp if arg == "data" else sp.replace("rdata.ttl", "rshapes.ttl")
+                got = S.run_validate(src if arg == "data" else other, src if arg == "shapes" else other)
+                stats["forms"] += 1
+                stats["location_spelling_forms"] = stats.get("location_spelling_forms", 0) + 1
+                outs.append((desc, got[:2] + (len(got[2]),) if got[0] == "ok" else got[:2]))
+            ref_desc, ref = outs[0]
+            for desc, o_ in outs[1:]:
+                if o_ != ref:
+                    empty_diffs.append({"what": "a document with relative IRIs and no stated base as %s argument: named by [%s] it gives %r, by [%s] it gives %r" % (arg, ref_desc, ref, desc, o_),
+                                        "document": open(rel_data if arg == "data" else rel_shapes, encoding="utf-8").read(), "spellings": [x[1] for x in spellings]})
     finally:
         shutil.rmtree(d, ignore_errors=True)
     for dd_ in empty_diffs[:4]:
